@@ -29,7 +29,12 @@
    (4) the vocabulary of the statements: tls declarations in processing order, the secret
        a declaration refers to, the winner for a name.
    (5) cert_update_dynamic: the decision of pkg/haproxy/dynupdate.go checkHostPair /
-       execUpdateCert (an own small model; Model/Dyn.v belongs to C02). *)
+       execUpdateCert (an own small model; Model/Dyn.v belongs to C02).
+   (6) crt_list_gen: the same part of WriteFrontendMaps over ANY hosts model: one record
+       per hatypes.Host with every field that code reads (certificate file, HasTLS,
+       SSLPassthrough, alpn / ca-file / crl-file / ciphers / ciphersuites / options), so
+       that hosts filled in by annotations and by the Gateway API converter are covered;
+       (1) is its special case (Proofs/CrtList_gen.v gen_refines). *)
 From Coq Require Import List Bool String Ascii ZArith.
 From HI Require Import Model.Tracker Model.Conv.
 Import ListNotations.
